@@ -1346,6 +1346,8 @@ def run_e2e(ctx, objdir, out=None):
     with concurrent.futures.ThreadPoolExecutor(max_workers=6) as ex:
         obs = list(ex.map(lambda ic: e2e_run(uft, objdir, progs[ic[1]["prog"]], work, ic[0], ic[1]), enumerate(cases)))
     ctx.log("end-to-end: %d traced runs in %.1fs" % (len(cases), time.time() - t0))
+    slow = sorted(((round(ob.get("wall", 0), 1), c.get("kind") or c["how"], c["opts"], progs[c["prog"]].get("big")) for c, ob in zip(cases, obs)), reverse=True)[:8]
+    ctx.log("slowest record runs: %s" % (slow,))
     if out is not None:
         out["res"] = (progs, cases, obs)
         return
